@@ -12,7 +12,7 @@ import (
 
 func miscRules() []*Rule {
 	return []*Rule{
-		{ID: "RANGE", Props: []string{"C13", "C03"}, Min: 8,
+		{ID: "RANGE", Props: []string{"C13", "C03", "C02"}, Min: 8,
 			Doc: "cut-off tables of the low-level scans: ScanEq stops (without the user callback) at the first record not Equal to the key it searched with; ScanRange stops at the first record not less than `to`; ScanMin/Scan forward every record",
 			Run: runRange},
 		{ID: "KEY", Props: []string{"C03", "C02", "C11", "C13"}, Min: 14,
@@ -39,7 +39,7 @@ func miscRules() []*Rule {
 		{ID: "SKIP-2", Props: []string{"C12", "C02"}, Min: 1,
 			Doc: "the per-entry `found` collector of the WITHOUT ROWID adapters is fresh for every index entry",
 			Run: runSkip2},
-		{ID: "DONE-0", Props: []string{"C17", "C03", "C13"}, Min: 10,
+		{ID: "DONE-0", Props: []string{"C17", "C03", "C13", "C01", "C02"}, Min: 10,
 			Doc: "b-tree iteration levels report done=true only when a callback or inner level did",
 			Run: runDone0},
 	}
